@@ -23,12 +23,14 @@ for i, e in enumerate(meta, 1):
     demo = e["demo_cmd"].replace(f"/tmp/seed/{pid}/repo", WT).replace("../demo", f"{SRC}/demo")
     clean()
     rc0, out0 = sh(demo, WT)
+    if re.search(r"^(FAIL|--- FAIL|panic:|fatal error)", out0, re.M): rc0 = rc0 or 1
     clean()
     rca, outa = sh(f"git apply {patch}", WT)
     if rca != 0:
         print(f"{pid}-{i}: APPLY FAILED {outa[:300]}"); continue
     rcb, outb = sh("go build ./...", WT)
     rc1, out1 = sh(demo, WT)
+    if re.search(r"^(FAIL|--- FAIL|panic:|fatal error)", out1, re.M): rc1 = rc1 or 1
     clean()
     ok = rc0 == 0 and rc1 != 0 and rcb == 0
     print(f"{pid}-{i}: demo without change rc={rc0}, with change rc={rc1}, build rc={rcb} -> {'CONFIRMED' if ok else 'NOT CONFIRMED'}")
